@@ -169,7 +169,7 @@ package limit
 //@   requires locked: held(l.mu)
 //@   requires sample: 0 < rtt && rtt <= 4611686018427387904 && 0 <= inFlight && inFlight < 1<<31
 //@   requires based: 0.0 < vegasBase(l) && vegasBase(l) <= float64(rtt)
-//@   maintains[C04,C06,C07] l
+//@   maintains[C04,C06,C07,C08] l
 //@   ensures[C06] drop_never_raises: didDrop ==> l.estimatedLimit <= old(l.estimatedLimit)
 //@   ensures[C06] drop_progress: didDrop && old(l.estimatedLimit) >= 2.0 ==> l.estimatedLimit <= old(l.estimatedLimit) - l.smoothing
 //@   ensures[C06] drop_floor: didDrop && old(l.estimatedLimit) < 2.0 ==> l.estimatedLimit < 2.0
@@ -183,14 +183,14 @@ package limit
 //@ func (*VegasLimit).OnSample
 //@   requires sample: 0 <= rtt && rtt <= 4611686018427387904 && 0 <= inFlight && inFlight < 1<<31
 //@   requires counter_no_overflow: l.probeCount < 1<<62
-//@   maintains[C04,C06,C07,C15] l
+//@   maintains[C04,C06,C07,C08,C15] l
 //@   ensures[C06] drop_never_raises: didDrop ==> l.estimatedLimit <= old(l.estimatedLimit)
 //@   ensures[C07] gate: !didDrop && float64(inFlight) * 2.0 < old(l.estimatedLimit) ==> l.estimatedLimit == old(l.estimatedLimit)
 //@   ensures[C08] update_delegated: old(l.probeCount) + 1 < int(old(l.probeJitter) * float64(l.probeMultipler) * old(l.estimatedLimit)) && old(vegasBase(l)) != 0.0 && float64(rtt) >= old(vegasBase(l)) ==> ncalls("(*limit.VegasLimit).updateEstimatedLimit") == 1 && callrecv("(*limit.VegasLimit).updateEstimatedLimit", 0) == l && callarg("(*limit.VegasLimit).updateEstimatedLimit", 0, 1) == rtt && callarg("(*limit.VegasLimit).updateEstimatedLimit", 0, 2) == inFlight && callarg("(*limit.VegasLimit).updateEstimatedLimit", 0, 3) == didDrop
 //@   ensures[C15] baseline_bound: vegasBase(l) == 0.0 || vegasBase(l) <= float64(rtt)
 //@   ensures[C15] baseline_observed: vegasBase(l) == float64(rtt) || vegasBase(l) == old(vegasBase(l))
-//@   ensures[C15] probe_resets: ref(l.rttNoLoad) != ref(old(l.rttNoLoad)) ==> l.probeCount == 0 && vegasBase(l) == float64(rtt) && fresh(ref(l.rttNoLoad))
-//@   ensures[C15] probe_recurs: l.probeCount == 0 || (l.probeCount == old(l.probeCount) + 1 && float64(l.probeCount) < l.probeJitter * float64(l.probeMultipler) * old(l.estimatedLimit))
+//@   ensures[C07,C15] probe_resets: ref(l.rttNoLoad) != ref(old(l.rttNoLoad)) ==> l.probeCount == 0 && vegasBase(l) == float64(rtt) && fresh(ref(l.rttNoLoad))
+//@   ensures[C07,C15] probe_recurs: l.probeCount == 0 || (l.probeCount == old(l.probeCount) + 1 && float64(l.probeCount) < l.probeJitter * float64(l.probeMultipler) * old(l.estimatedLimit))
 //@   ensures[C16] notified: int(l.estimatedLimit) != int(old(l.estimatedLimit)) ==> allDelivered(l.listeners, int(l.estimatedLimit))
 //@   ensures[C16] listeners_kept: l.listeners == old(l.listeners)
 //@   ensures[C20] sampled_once: ncalls("(*core.CommonMetricSampler).Sample") == 1 && callrecv("(*core.CommonMetricSampler).Sample", 0) == l.commonSampler && callarg("(*core.CommonMetricSampler).Sample", 0, 0) == rtt && callarg("(*core.CommonMetricSampler).Sample", 0, 1) == inFlight && callarg("(*core.CommonMetricSampler).Sample", 0, 2) == didDrop
@@ -275,7 +275,7 @@ package limit
 //@ func (*GradientLimit).OnSample
 //@   relational[C08] rtt_monotone varies rtt: r1(rtt) < r2(rtt) && old(gradMin(l).value) != 0.0 && float64(r1(rtt)) >= old(gradMin(l).value) && !gradProbed(l, old(l.resetRTTCounter)) ==> r2(l.estimatedLimit) <= r1(l.estimatedLimit)
 //@   requires sample: 0 <= rtt && rtt <= 4611686018427387904 && 0 <= inFlight && inFlight < 1<<31
-//@   maintains[C04,C06,C07,C15] l
+//@   maintains[C04,C06,C07,C08,C15] l
 //@   ensures[C06] drop_never_raises: didDrop ==> l.estimatedLimit <= old(l.estimatedLimit)
 //@   ensures[C06] drop_rule: didDrop && !gradProbed(l, old(l.resetRTTCounter)) ==> l.estimatedLimit == max(float64(gradQueue(l, old(l.estimatedLimit))), min(float64(l.maxLimit), max(float64(l.minLimit), old(l.estimatedLimit) * (1.0 - l.smoothing) + l.smoothing * (old(l.estimatedLimit) / 2.0))))
 //@   ensures[C07] gate: !didDrop && float64(inFlight) < old(l.estimatedLimit) / 2.0 && !gradProbed(l, old(l.resetRTTCounter)) ==> l.estimatedLimit == old(l.estimatedLimit)
@@ -347,7 +347,7 @@ package limit
 //@   relational[C08] rtt_monotone_warmup varies rtt: r1(rtt) < r2(rtt) && old(g2Long(l).count) < g2Long(l).warmupWindow ==> r2(l.estimatedLimit) <= r1(l.estimatedLimit)
 //@   relational[C08] rtt_monotone_steady varies rtt: r1(rtt) < r2(rtt) && old(g2Long(l).count) >= g2Long(l).warmupWindow ==> r2(l.estimatedLimit) <= r1(l.estimatedLimit)
 //@   requires sample: 0 <= rtt && rtt <= 4611686018427387904 && 0 <= inFlight && inFlight < 1<<31
-//@   maintains[C04,C07] l
+//@   maintains[C04,C07,C08] l
 //@   ensures[C07] gate: float64(inFlight) < old(l.estimatedLimit) / 2.0 ==> l.estimatedLimit == old(l.estimatedLimit)
 //@   ensures[C07,C08] update_rule: float64(inFlight) >= old(l.estimatedLimit) / 2.0 ==> l.estimatedLimit == max(float64(l.minLimit), min(float64(l.maxLimit), old(l.estimatedLimit) * (1.0 - l.smoothing) + (old(l.estimatedLimit) * g2Gradient(float64(rtt), g2LongAfterAdd(l, float64(rtt))) + float64(g2Queue(l, old(l.estimatedLimit)))) * l.smoothing))
 //@   ensures[C07] growth: float64(inFlight) >= old(l.estimatedLimit) / 2.0 && rtt > 0 && g2LongAfterAdd(l, float64(rtt)) >= float64(rtt) ==> l.estimatedLimit == max(float64(l.minLimit), min(float64(l.maxLimit), old(l.estimatedLimit) + l.smoothing * float64(g2Queue(l, old(l.estimatedLimit)))))
